@@ -21,6 +21,7 @@ import (
 	"os"
 	"os/exec"
 	"path/filepath"
+	"regexp"
 	"strings"
 	"time"
 
@@ -671,32 +672,45 @@ type stressVerdict struct {
 
 func runStressChild(c *vh.Ctx, bin string, cfg stressCfg, timeout time.Duration) (v stressVerdict, crash string) {
 	arg, _ := json.Marshal(cfg)
+	out, crash := runChild(bin, "c10stress", arg, cfg.Procs, timeout)
+	if crash != "" {
+		return v, crash
+	}
+	if json.Unmarshal(out, &v) != nil {
+		return v, "child printed no verdict: " + firstLines(string(out), 3)
+	}
+	return v, ""
+}
+
+// runChild runs one child of the harness binary and classifies how it ended: a Go fatal error
+// (concurrent map access is not recoverable), a race report, a deadlock / hang, or its stdout.
+func runChild(bin, child string, arg []byte, procs int, timeout time.Duration) (stdout []byte, crash string) {
 	ctx, cancel := context.WithTimeout(context.Background(), timeout)
 	defer cancel()
-	cmd := exec.CommandContext(ctx, bin, "__child", "c10stress", string(arg))
-	cmd.Env = append(os.Environ(), fmt.Sprintf("GOMAXPROCS=%d", cfg.Procs), "GORACE=halt_on_error=1 exitcode=66", "GOTRACEBACK=single")
+	cmd := exec.CommandContext(ctx, bin, "__child", child, string(arg))
+	cmd.Env = append(os.Environ(), fmt.Sprintf("GOMAXPROCS=%d", procs), "GORACE=halt_on_error=1 exitcode=66", "GOTRACEBACK=single")
 	var out, errb bytes.Buffer
 	cmd.Stdout, cmd.Stderr = &out, &errb
 	err := cmd.Run()
 	es := errb.String()
 	switch {
 	case ctx.Err() != nil:
-		return v, "hang: no result within " + timeout.String()
+		return nil, "hang: no result within " + timeout.String()
 	case strings.Contains(es, "fatal error: concurrent map"):
 		i := strings.Index(es, "fatal error: concurrent map")
-		return v, firstLines(es[i:], 1) + " @ " + frameOf(es[i:])
+		return nil, firstLines(es[i:], 1) + " @ " + frameOf(es[i:])
 	case strings.Contains(es, "WARNING: DATA RACE"):
 		i := strings.Index(es, "WARNING: DATA RACE")
-		return v, "DATA RACE @ " + frameOf(es[i:])
+		return nil, "DATA RACE @ " + raceFrames(es[i:])
 	case strings.Contains(es, "all goroutines are asleep"):
-		return v, "deadlock: all goroutines are asleep"
+		return nil, "deadlock: all goroutines are asleep"
+	case strings.Contains(es, "fatal error: "):
+		i := strings.Index(es, "fatal error: ")
+		return nil, firstLines(es[i:], 1) + " @ " + frameOf(es[i:])
 	case err != nil:
-		return v, "child failed: " + err.Error() + ": " + firstLines(es, 3)
+		return nil, "child failed: " + err.Error() + ": " + firstLines(es, 3)
 	}
-	if json.Unmarshal(out.Bytes(), &v) != nil {
-		return v, "child printed no verdict: " + firstLines(out.String()+es, 3)
-	}
-	return v, ""
+	return out.Bytes(), ""
 }
 
 func firstLines(s string, n int) string {
@@ -707,19 +721,45 @@ func firstLines(s string, n int) string {
 	return strings.Join(l, " / ")
 }
 
-// first frame inside origami's runtime package of a crash / race report
+// first frame inside origami of a crash / race report, e.g. "runtime.(*VM).AddClass" or
+// "parser.(*DefaultClassPathManager).findNamespaceNode"
 func frameOf(s string) string {
-	const pre = "origami/runtime.(*VM)."
 	for _, l := range strings.Split(s, "\n") {
-		if i := strings.Index(l, pre); i >= 0 {
-			f := l[i+len(pre):]
-			if k := strings.IndexAny(f, "( \t"); k > 0 {
-				f = f[:k]
+		if strings.Contains(l, ".go:") {
+			continue
+		}
+		if m := frameRe.FindStringSubmatch(l); m != nil {
+			f := m[1]
+			if strings.HasPrefix(f, "runtime.(*VM).") { // historical spelling of the registry frames
+				return "(*VM)." + strings.TrimPrefix(f, "runtime.(*VM).")
 			}
-			return "(*VM)." + f
+			return f
 		}
 	}
 	return "?"
+}
+
+var frameRe = regexp.MustCompile(`github\.com/php-any/origami/((?:[\w./]|\(\*\w+\))+)`)
+
+// the two access sites of a race report: first origami frame of each stack
+func raceFrames(s string) string {
+	var sites []string
+	for _, blk := range strings.Split(s, "\n\n") {
+		h := firstLines(blk, 1)
+		if strings.HasPrefix(h, "Write at") || strings.HasPrefix(h, "Read at") || strings.HasPrefix(h, "Previous write") || strings.HasPrefix(h, "Previous read") ||
+			strings.HasPrefix(h, "WARNING: DATA RACE") {
+			if f := frameOf(blk); f != "?" {
+				sites = append(sites, f)
+			}
+		}
+		if len(sites) == 2 {
+			break
+		}
+	}
+	if len(sites) == 0 {
+		return "?"
+	}
+	return strings.Join(sites, " / ")
 }
 
 func crashSig(crash string) string {
@@ -846,6 +886,10 @@ func concurrentPart(c *vh.Ctx) {
 	if failed {
 		return
 	}
+	// the resolution surface behind the registry maps (class-path manager, parser clones, autoload, TempVM)
+	if !resolvePart(c, self, false) {
+		return
+	}
 	// known stream: concurrent autoload of the same class files. Kept out of the main stream
 	// (known finding C10-autoload-file-marked-before-registered); a crash or a hang here is
 	// still a violation of its own.
@@ -856,6 +900,13 @@ func concurrentPart(c *vh.Ctx) {
 			break // reproduced the known finding
 		}
 		if c.Res.ViolationCount > 0 {
+			return
+		}
+	}
+	// the same through lazily discovered namespaces and all three loading calls
+	for rep := 0; rep < c.N(2, 6); rep++ {
+		cfg := resolveCfg{Kind: "resolve", Mix: "loadshared", G: vh.Pick(c.Rand, []int{4, 8, 16}), Rounds: 10, Procs: vh.Pick(c.Rand, []int{4, 8, 16}), NS: 8, Seed: c.Rand.U64() % 1000000}
+		if !resolveOnce(c, self, cfg) {
 			return
 		}
 	}
@@ -878,6 +929,8 @@ func concurrentPart(c *vh.Ctx) {
 			}
 		}
 	}
+	// the resolution surface under the detector (find / parse / autoload / TempVM)
+	resolvePart(c, rb, true)
 }
 
 // ------------------------------------------------------------ Run
@@ -916,6 +969,23 @@ func Run(c *vh.Ctx) {
 			// the schedule is the Go scheduler's: repeat the configuration (fresh seeds after the first)
 			for i := 0; i < 20; i++ {
 				if !stressOnce(c, bin, cfg) {
+					break
+				}
+				cfg.Seed++
+			}
+		case "resolve":
+			var cfg resolveCfg
+			json.Unmarshal(c.ReplayRaw, &cfg)
+			bin := vh.Self()
+			if cfg.Race {
+				if rb, err := buildRace(c); err == nil {
+					bin = rb
+				} else {
+					c.Note("race build failed: %v", err)
+				}
+			}
+			for i := 0; i < 20; i++ {
+				if !resolveOnce(c, bin, cfg) {
 					break
 				}
 				cfg.Seed++
